@@ -44,7 +44,7 @@ class C10Spec(explore.Spec):
 
     def configs(self, tier):
         versions = ("1.4", "2.2") if tier == "quick" else ("1.4", "1.5", "2.0", "2.1", "2.2")
-        return [{"version": v, "cb": None} for v in versions]
+        return [{"version": v, "cb": None} for v in versions] + [{"version": "2.2", "cb": None, "flavour": "async"}]
 
     def alphabet(self, cfg):
         v = cfg["version"]
@@ -61,6 +61,8 @@ class C10Spec(explore.Spec):
             ("fw", 1, 1, 1, None),
             ("fw", 1, 3, 3, "missing"),
             ("fw", 1, 3, 3, "invalid"),
+            ("fw", 1, 1, 1, "missing"),  # bad path for a type/version whose image is already cached
+            ("fw", 1, 1, 1, "invalid"),
             ("fw", 1, "x", 1, "F1"),
         ]
         return evs
